@@ -363,8 +363,8 @@ def judge_case(ctx, res):
         ctx.nontriv({"schema": schema, "ops": wit["ops"]})
 
 
-def make_case(cid, rng, schema, n_tracks, n_ops, first_id=None, twin=False):
-    ops, metas = GH.gen_setter_history(rng, schema, n_tracks, n_ops, first_id=first_id)
+def make_case(cid, rng, schema, n_tracks, n_ops, first_id=None, twin=False, no_perf_row=False):
+    ops, metas = GH.gen_setter_history(rng, schema, n_tracks, n_ops, first_id=first_id, no_perf_row=no_perf_row)
     if twin:
         # a second library of the same version with as many tracks (so that the track ids coincide), created right after
         # the first and never touched again
@@ -388,7 +388,11 @@ def run(ctx):
             first = GH.FIRST_IDS[(k // 6) % len(GH.FIRST_IDS)] if k % 6 == 4 else None
             if first:
                 ctx.bump_in("histories_with_first_id", str(first))
-            cases.append(make_case("c%d" % n, ctx.rng, schema, 2 + (k % 2), 20 + (k % 3) * 10, first, twin=(k % 6 == 1)))
+            # on 1.x one history in four starts with a track that has no performance-data row (imported by Engine, not analysed)
+            norow = (k % 4 == 3) and not is_v2(schema)
+            if norow:
+                ctx.bump("histories_with_a_track_without_performance_row")
+            cases.append(make_case("c%d" % n, ctx.rng, schema, 2 + (k % 2), 20 + (k % 3) * 10, first, twin=(k % 6 == 1), no_perf_row=norow))
             n += 1
         # many tracks side by side (row ids with more than one digit): the frame condition is then judged over 13-40 bystanders
         for k in range(1 if ctx.tier == "quick" else 12):
